@@ -1403,8 +1403,12 @@ func (client *client) pollNewMessages(ids []packets.PacketID) (unused []packets.
 				ids = ids[1:]
 			}
 			if client.version == packets.Version5 && m.Message.MessageExpiry != 0 {
-				d := uint32(now.Sub(v.At).Seconds())
-				m.Message.MessageExpiry = d
+				// forward the remaining lifetime: the original interval minus the time the message waited
+				if d := uint32(now.Sub(v.At).Seconds()); d < m.Message.MessageExpiry {
+					m.Message.MessageExpiry -= d
+				} else {
+					m.Message.MessageExpiry = 1
+				}
 			}
 			client.write(gmqtt.MessageToPublish(m.Message, client.version))
 		case *queue.Pubrel:
